@@ -171,6 +171,14 @@ func checkC09(c *CaseC09, fl *Fails) {
 }
 
 func sweepC09(tier string, emit func(*CaseC09)) {
+	// complete sets of descendants at mixed zooms in which no member is the finest on both axes
+	for _, b := range []ref.Box{{H: 3, X: 2, Y: 5, V: 4, F: -3}, {H: 3, X: 2, Y: 5, V: 4, F: 2}, {H: 0, X: 0, Y: 0, V: 0, F: -1}, {H: 20, X: 931277, Y: 412899, V: 12, F: 0}, {H: 30, X: 5, Y: 7, V: 33, F: -1}} {
+		for _, lower := range []bool{true, false} {
+			tl := crossTiling(b, lower)
+			emit(&CaseC09{P: Pt{F64(139.767125), F64(35.681236), F64(-0.5)}, HFine: 12, HCoarse: 10, VFine: 12, VCoarse: 9, Box: b, Tiling: tl})
+			emit(&CaseC09{P: Pt{F64(139.767125), F64(35.681236), F64(-0.5)}, HFine: 12, HCoarse: 10, VFine: 12, VCoarse: 9, Box: b, Tiling: []ref.Box{tl[5], tl[3], tl[4], tl[0], tl[2], tl[1]}})
+		}
+	}
 	// many descendants: 2^15 .. 2^17 (thorough 2^20) children zoomed back out and merged in one call
 	big := [][2]int64{{5, 5}, {6, 4}, {4, 9}}
 	if tier != "quick" {
